@@ -277,6 +277,7 @@ def verdict(prop, tier, seed, dumps, problems, wall, nshards):
         "oracle_evaluations": total_oracle,
         "monitors": {m: {"evaluations": st[0], "violations": st[1], "known_finding_hits": st[2],
                          "max_residual_on_passing": st[3]} for m, st in sorted(mon.stats.items())},
+        "tolerance_used": {k: round(v, 6) for k, v in sorted(mon.headroom.items()) if v > 1e-3},
         "contracts_on_real_functions": contracts_seen,
         "contract_backend": backend,
         "case_kinds": mon._kind_seen,
